@@ -314,7 +314,7 @@ def readF32 (fuel : Nat) (o : Opts) : Prog (Option Nat) := do
     else if b = 0xCB then do
       gotoNextByte
       let u ← getValue 8
-      convertByPolicy (if Ieee.inFloatRange u then some (Ieee.f64ToF32 u) else none) o
+      convertByPolicy (if Ieee.toFloatOk u then some (Ieee.f64ToF32 u) else none) o
     else mismatchTail fuel o
 
 def readF64 (fuel : Nat) (o : Opts) : Prog (Option Nat) := do
